@@ -211,6 +211,15 @@ def check_disc(case, out):
             out.evals += 1
             if b is not RAISED and bool(b) != (p >= alpha):
                 out.fail("power_divergence:boolean_verdict", f"p={p!r} alpha={alpha!r} verdict={b}")
+    # the verdict against the library's own p-value, at the boundary: alpha = p itself and its two neighbouring floats
+    if got is not RAISED and not math.isnan(float(got[1])) and 0.0 < float(got[1]) < 1.0:
+        pl = float(got[1])
+        for alpha, want_v in ((pl, True), (math.nextafter(pl, 0.0), True), (math.nextafter(pl, 1.0), False)):
+            b = run("power_divergence[boolean]", CT.power_divergence, X, Y, list(Z), df, boolean=True, lambda_=lam, significance_level=alpha)
+            out.evals += 1
+            if b is not RAISED and bool(b) != want_v:
+                out.fail("power_divergence:boolean_verdict_at_boundary", f"library p={pl!r} alpha={alpha!r} verdict={b}")
+                break
     out.sample = {"columns": case["columns"], "n_rows": len(rows), "X": X, "Y": Y, "Z": Z, "lambda": lam, "mode": case["mode"]}
 
 
